@@ -44,6 +44,30 @@ BfSigned(t) == t \in {"char", "schar", "short", "int", "long", "llong"}
 Max(a, b) == IF a > b THEN a ELSE b
 RoundUp(x, a) == ((x + a - 1) \div a) * a
 
+(* ------------------------------------------------------------ enumerated types *)
+(* A scalar [k |-> "s", t |-> "en", ev |-> <<value kind, ..>>] is an enum whose enumerators have, in this order, *)
+(* the values named by the kinds (TLC integers are 32 bit: the values are symbolic).  gcc's choice of the        *)
+(* compatible type: no negative enumerator -> unsigned int if all values fit, else unsigned long; with a         *)
+(* negative enumerator -> int if all values fit, else long.  Only size/alignment are part of the layout.         *)
+EnumVals == {"nbig", "nmin", "neg1", "zero", "imax", "umax", "huge", "lmax", "ubig"}
+(*  nbig = -2^32   nmin = -2^31   neg1 = -1   zero = 0   imax = 2^31-1   umax = 2^32-1   huge = 2^32            *)
+(*  lmax = 2^63-1  ubig = 2^63                                                                                   *)
+EvNeg(v) == v \in {"nbig", "nmin", "neg1"}
+EvBelowInt(v) == v = "nbig"
+(* 0: fits int, 1: fits unsigned int, 2: fits long, 3: fits unsigned long only *)
+EvMaxClass(v) == CASE v = "umax" -> 1 [] v \in {"huge", "lmax"} -> 2 [] v = "ubig" -> 3 [] OTHER -> 0
+RECURSIVE EvMax(_, _)
+EvMax(ev, i) == IF i > Len(ev) THEN 0 ELSE Max(EvMaxClass(ev[i]), EvMax(ev, i + 1))
+EvHasNeg(ev) == \E i \in 1..Len(ev) : EvNeg(ev[i])
+(* a negative enumerator together with one above LONG_MAX has no integer type at all (gcc rejects it) *)
+EnumValid(ev) == ~(EvHasNeg(ev) /\ EvMax(ev, 1) = 3)
+EnumUnder(ev) ==
+  IF EvHasNeg(ev)
+  THEN IF EvMax(ev, 1) = 0 /\ ~(\E i \in 1..Len(ev) : EvBelowInt(ev[i])) THEN "int" ELSE "long"
+  ELSE IF EvMax(ev, 1) <= 1 THEN "uint" ELSE "ulong"
+(* size = alignment of a scalar type record *)
+TSize(T) == IF T.t = "en" THEN ScalarSize(EnumUnder(T.ev)) ELSE ScalarSize(T.t)
+
 (* ------------------------------------------------------------ layout *)
 (* L(T, v) = [sz, al, pl]: size and alignment in bytes; for struct/union pl[i] = [off, bit]: byte offset *)
 (* of member i, and for bit-fields the bit offset of its first bit, both from the start of T.           *)
@@ -89,7 +113,7 @@ Place(un, ms, i, acc, v) ==
                                     pl |-> Append(acc.pl, [off |-> start \div 8, bit |-> -1])], v)
 
 L(T, v) ==
-  IF T.k = "s" THEN [sz |-> ScalarSize(T.t), al |-> ScalarAlign(T.t), pl |-> <<>>]
+  IF T.k = "s" THEN [sz |-> TSize(T), al |-> TSize(T), pl |-> <<>>]
   ELSE IF T.k = "a" THEN LET e == L(T.el, v) IN [sz |-> e.sz * T.n, al |-> e.al, pl |-> <<>>]
   ELSE LET r == Place(T.k = "un", T.ms, 1, [bp |-> 0, mx |-> 0, al |-> 1, pu |-> -1, pl |-> <<>>], v)
            bits == IF T.k = "un" THEN r.mx ELSE r.bp
@@ -97,7 +121,7 @@ L(T, v) ==
 
 (* ------------------------------------------------------------ leaves *)
 (* Flat list of the addressable leaves of T: [p: C access path, off: byte offset, t: scalar type,       *)
-(* bit: first bit (absolute) or -1, w: width, sg: signed bit-field].  Unnamed bit-fields have p = "".   *)
+(* bit: first bit (absolute) or -1, w: width, sg: signed bit-field, sz: size of the (declared) type, ev: enumerator kinds].  Unnamed bit-fields have p = "".   *)
 RECURSIVE Flat(_, _, _, _, _), FlatMs(_, _, _, _, _, _, _), FlatArr(_, _, _, _, _, _)
 Dot(path, name) == IF path = "" THEN name ELSE path \o "." \o name
 
@@ -112,12 +136,13 @@ FlatMs(T, lay, path, off, pre, i, v) ==
         nm == pre \o "m" \o ToString(i)
         rest == FlatMs(T, lay, path, off, pre, i + 1, v)
     IN CASE m.m = "b" -> <<[p |-> IF m.nm THEN Dot(path, nm) ELSE "", off |-> off + lay.pl[i].off, t |-> m.t,
-                           bit |-> (8 * off) + lay.pl[i].bit, w |-> m.w, sg |-> BfSigned(m.t)]>> \o rest
+                           bit |-> (8 * off) + lay.pl[i].bit, w |-> m.w, sg |-> BfSigned(m.t), sz |-> ScalarSize(m.t), ev |-> <<>>]>> \o rest
          [] m.m = "f" -> Flat(m.ty, Dot(path, nm), off + lay.pl[i].off, "", v) \o rest
          [] m.m = "an" -> Flat(m.ty, path, off + lay.pl[i].off, nm \o "_", v) \o rest
 
 Flat(T, path, off, pre, v) ==
-  IF T.k = "s" THEN <<[p |-> path, off |-> off, t |-> T.t, bit |-> -1, w |-> 0, sg |-> FALSE]>>
+  IF T.k = "s" THEN <<[p |-> path, off |-> off, t |-> T.t, bit |-> -1, w |-> 0, sg |-> FALSE, sz |-> TSize(T),
+                       ev |-> IF T.t = "en" THEN T.ev ELSE <<>>]>>
   ELSE IF T.k = "a" THEN FlatArr(T, path, off, L(T.el, v).sz, 0, v)
   ELSE FlatMs(T, L(T, v), path, off, pre, 1, v)
 
@@ -266,6 +291,24 @@ A(t, n) == [m |-> "f", ty |-> [k |-> "a", n |-> n, el |-> Sc(t)]]
 B(t, w) == [m |-> "b", t |-> t, w |-> w, nm |-> TRUE]
 U(t, w) == [m |-> "b", t |-> t, w |-> w, nm |-> FALSE]
 
+(* enum members: every ordered list of 1..3 distinct enumerator value kinds that has an integer type *)
+En(ev) == [k |-> "s", t |-> "en", ev |-> ev]
+EnumLists(n) == {ev \in UNION {[1..k -> EnumVals] : k \in 1..n} :
+                   /\ \A i, j \in 1..Len(ev) : i # j => ev[i] # ev[j]
+                   /\ EnumValid(ev)}
+(* as a plain member, as an array and behind a char inside a nested struct (offset = alignment of the enum) *)
+(* a negative enumerator next to LONG_MAX (type long): kept in a family of its own (CLayout_enumx.cfg) *)
+EnumNegLmax(ev) == EvHasNeg(ev) /\ (\E i \in 1..Len(ev) : ev[i] = "lmax")
+EnumForms(ev) == {[m |-> "f", ty |-> En(ev)],
+                  [m |-> "f", ty |-> [k |-> "a", n |-> 2, el |-> En(ev)]],
+                  [m |-> "f", ty |-> [k |-> "st", ms |-> <<F("char"), [m |-> "f", ty |-> En(ev)], F("char")>>]]}
+AtomsEnumX == UNION {EnumForms(ev) : ev \in {e \in EnumLists(2) : EnumNegLmax(e)}}
+EnumAtoms(n) == UNION {{[m |-> "f", ty |-> En(ev)],
+                        [m |-> "f", ty |-> [k |-> "a", n |-> 2, el |-> En(ev)]],
+                        [m |-> "f", ty |-> [k |-> "st", ms |-> <<F("char"), [m |-> "f", ty |-> En(ev)], F("char")>>]]}
+                       : ev \in {e \in EnumLists(n) : ~EnumNegLmax(e)}}
+AtomsEnum == EnumAtoms(3)
+AtomsEnumSim == {[m |-> "f", ty |-> En(ev)] : ev \in {e \in EnumLists(2) : ~EnumNegLmax(e)}}
 AllScalars == {F(t) : t \in ScalarTs}
 AllArrays == {A(t, n) : t \in ScalarTs, n \in 1..3}
 AllBf == UNION {{B(t, w) : w \in 1..MaxWidth(t)} \cup {U(t, w) : w \in 0..MaxWidth(t)} : t \in IntTs}
@@ -341,7 +384,9 @@ TSeq == <<"char", "schar", "uchar", "short", "ushort", "int", "uint", "long", "u
           "float", "double", "ldouble", "ptr", "enum">>
 TIdx(t) == CHOOSE i \in 1..Len(TSeq) : TSeq[i] = t
 Code(a) == IF a.m = "b" THEN (TIdx(a.t) * 7) + (a.w * 3) + (IF a.nm THEN 1 ELSE 0)
-           ELSE IF a.ty.k = "s" THEN TIdx(a.ty.t) ELSE (TIdx(a.ty.el.t) * 5) + a.ty.n
+           ELSE IF a.ty.k = "s" THEN (IF a.ty.t = "en" THEN 18 + Len(a.ty.ev) ELSE TIdx(a.ty.t))
+           ELSE IF a.ty.k = "a" /\ a.ty.el.k = "s" /\ a.ty.el.t # "en" THEN (TIdx(a.ty.el.t) * 5) + a.ty.n
+           ELSE 0
 Share(S) == IF NParts = 1 THEN S ELSE {a \in S : Code(a) % NParts = Part}
 FirstAtoms == Share(Atoms)
 FirstNest == IF Part = 0 THEN NestKinds ELSE {}
@@ -382,7 +427,7 @@ NextSim ==
           /\ CASE cat = "open" -> (\E nk \in NestKinds : DoOpen(nk)) /\ done' = FALSE
                [] cat = "close" -> DoClose /\ done' = FALSE
                [] cat = "fin" -> done' = TRUE /\ UNCHANGED stk
-               [] cat = "sc" -> (\E t \in ScalarTs : Push(F(t))) /\ done' = FALSE
+               [] cat = "sc" -> (\E a \in AllScalars \cup AtomsEnumSim : Push(a)) /\ done' = FALSE
                [] cat = "arr" -> (\E n \in 1..3 : Push(A(ct, n))) /\ done' = FALSE
                [] cat = "bf" -> (\E w \in 1..MaxWidth(ct) : Push(B(ct, w))) /\ done' = FALSE
                [] cat = "ubf" -> (\E w \in 0..MaxWidth(ct) : Push(U(ct, w))) /\ done' = FALSE
@@ -392,8 +437,8 @@ EmitSim == (done' /\ ~done) => EmitJ(Row(Decl(stk')))
 RECURSIVE LeavesOk(_, _, _)
 LeavesOk(lv, sz, i) ==
   i > Len(lv) \/ (/\ IF lv[i].p = "" THEN TRUE      \* unnamed bit-fields do not align the aggregate: nothing to say
-                     ELSE IF lv[i].bit >= 0 THEN lv[i].bit + lv[i].w <= 8 * sz /\ (lv[i].bit % (8 * ScalarSize(lv[i].t))) + lv[i].w <= 8 * ScalarSize(lv[i].t)
-                     ELSE lv[i].off + ScalarSize(lv[i].t) <= sz /\ lv[i].off % ScalarAlign(lv[i].t) = 0
+                     ELSE IF lv[i].bit >= 0 THEN lv[i].bit + lv[i].w <= 8 * sz /\ (lv[i].bit % (8 * lv[i].sz)) + lv[i].w <= 8 * lv[i].sz
+                     ELSE lv[i].off + lv[i].sz <= sz /\ lv[i].off % lv[i].sz = 0
                   /\ LeavesOk(lv, sz, i + 1))
 SaneRow(r) ==
   /\ r.sz % r.al = 0 /\ r.sz > 0
